@@ -318,7 +318,7 @@ func genScripts(seed uint64, tier string, tries int) []script {
 	nrand := 3400
 	if tier == "thorough" {
 		nback = 300
-		nrand = 80000
+		nrand = 60000
 		out = append(out, genExhaustive("exh-cold1x2-hot1x1", []int{2}, []int{1}, n, false, r)...)
 		out = append(out, genExhaustive("exh-cold1x1-hot2x1", []int{1}, []int{1, 1}, n, false, r)...)
 		out = append(out, genExhaustive("exh-cold1x1-hot1x1-open", []int{1}, []int{1}, 2, true, r)...)
